@@ -313,6 +313,16 @@ class Ledger:
                 return from_filter(t[1], depth + 1)
             if t[0] == 'call' and call_name(t) in ('filter', 'iter', 'into_iter', 'cloned'):
                 return from_filter(t[2][0], depth + 1)
+            # an Option / Result carrying such an element: Some(x), a merge of None and Some(x), its payload
+            if t[0] == 'agg' and t[2] in ('Some', 'Ok') and t[3]:
+                return from_filter(t[3][0], depth + 1)
+            if t[0] == 'vfield' and t[2] in ('Some', 'Ok', 'Continue'):
+                return from_filter(t[1], depth + 1)
+            if t[0] == 'phi':
+                live = [a for a in t[1] if not (a[0] == 'agg' and a[2] in ('None', 'Err'))]
+                return bool(live) and all(from_filter(a, depth + 1) for a in live)
+            if t[0] == 'call' and call_name(t) == 'branch':
+                return from_filter(t[2][0], depth + 1)
             return False
         b = s['body']
         if E[0] == 'param' and b.dk == 'Closure':
